@@ -41,10 +41,13 @@ def make_endpoint(rid, beh, bindings=(), returns_context=False):
                             headers={'X-Route': rid})
         if kind == 'uncaught':
             raise Boom('uncaught in %s' % rid)
-        cls = {403: errors.Forbidden, 404: errors.NotFound, 503: errors.ServiceUnavailable}[status]
-        exc = cls(detail='err:%s:%s' % (rid, probe.current_token()), is_breaking=breaking,
-                  headers={'X-Route': rid})
-        if kind == 'raise':
+        cls = {403: errors.Forbidden, 404: errors.NotFound, 503: errors.ServiceUnavailable, 410: errors.Gone, 400: errors.BadRequest}[status]
+        if kind.endswith('-unmarked'):
+            exc = cls(detail='err:%s:%s' % (rid, probe.current_token()), headers={'X-Route': rid})
+        else:
+            exc = cls(detail='err:%s:%s' % (rid, probe.current_token()), is_breaking=breaking,
+                      headers={'X-Route': rid})
+        if kind.startswith('raise'):
             raise exc
         return exc
     ns = {'_run': _run}
